@@ -102,15 +102,31 @@ namespace impl {
 		#endif
 	}
 	
+	inline void prefer_writers(pthread_rwlockattr_t *attr)
+	{
+		#ifdef __GLIBC__
+		// The default kind lets new readers pass a waiting writer: with readers arriving all
+		// the time the writer never gets the lock. Nothing here takes a read lock recursively.
+		pthread_rwlockattr_setkind_np(attr,PTHREAD_RWLOCK_PREFER_WRITER_NONRECURSIVE_NP);
+		#else
+		(void)(attr);
+		#endif
+	}
+
 	inline void create_rwlock(pthread_rwlock_t *m,bool pshared=false)
 	{
 		if(!pshared) {
-			pthread_rwlock_init(m,0);
+			pthread_rwlockattr_t attr;
+			pthread_rwlockattr_init(&attr);
+			prefer_writers(&attr);
+			pthread_rwlock_init(m,&attr);
+			pthread_rwlockattr_destroy(&attr);
 		}
 		else {
 			#ifdef CPPCMS_HAS_THREAD_PSHARED	
 			pthread_rwlockattr_t attr;
 			pthread_rwlockattr_init(&attr);
+			prefer_writers(&attr);
 			try {
 				int res;
 				res = pthread_rwlockattr_setpshared(&attr,PTHREAD_PROCESS_SHARED);
